@@ -416,6 +416,9 @@ WITNESSES = {
             ('non-convex bounds (ring arc 0..5 of 8)', 'MC_RRT', q(**{**REG, 'V_REGION_HI': 5}), ['W_AlwaysInRegion'], ['W_AlwaysInRegion'])],
     'rrtstar': [('ValidateRoots=FALSE (as pinned)', 'MC_RRTStar', q(V_VALIDATE_ROOTS=0, V_WORLDS='few', V_PROBLEMS='one', V_BIAS='0'), ['C01_PathValid'], None),
                 ('RewireStrict=FALSE (<= mutant)', 'MC_RRTStar', q(V_REWIRE_STRICT=0, V_WORLDS='few', V_PROBLEMS='one', V_BIAS='0', V_MAXT=3), ['C15_WellFormed'], None),
+                ('RewireStrict=FALSE (<= mutant), first-minimum tie-break: implementation-shaped parent cycle', 'MC_RRTStar',
+                 q(V_REWIRE_STRICT=0, V_NEAR_FIRST=1, V_TOPO='ring', V_N=7, V_MAXD=2, V_RAD2=3, V_MAXT=5, V_WORLDS='free', V_PROBLEMS='one', V_BIAS='0'),
+                 ['C15_WellFormed'], ['C15_WellFormed']),
                 ('rewiring reachable', 'MC_RRTStar', q(V_TOPO='ring', V_N=6, V_MAXD=2, V_RAD2=3, V_MAXT=4, V_WORLDS='few', V_PROBLEMS='one', V_BIAS='0'), ['W_NoRewire'], ['W_NoRewire']),
                 ('non-nearest parent reachable', 'MC_RRTStar', q(V_TOPO='ring', V_N=6, V_MAXD=2, V_RAD2=3, V_MAXT=3, V_WORLDS='few', V_PROBLEMS='one', V_BIAS='0'), ['W_ParentIsNearest'], ['W_ParentIsNearest']),
                 ('non-convex bounds', 'MC_RRTStar', q(**{**REG, 'V_REGION_HI': 5}), ['W_AlwaysInRegion'], ['W_AlwaysInRegion'])],
